@@ -32,7 +32,7 @@ func init() {
 		resetOptions()
 		switch k.Kind {
 		case "purity":
-			m := withSpare(fromJSON(string(k.Map))).(map[string]interface{})
+			m := retype(withSpare(fromJSON(string(k.Map)))).(map[string]interface{})
 			rt.OrderPolicy = k.Pol
 			c17Purity(c, m, k.Op)
 			rt.OrderPolicy = rt.PolicySorted
@@ -116,7 +116,7 @@ func c17Purity(c *Ctx, m map[string]interface{}, opName string) {
 	}
 	before := dump(m)
 	cas := func() interface{} {
-		return c17Case{Kind: "purity", Op: opName, Map: json.RawMessage(jsonOf(m)), Pol: rt.OrderPolicy}
+		return c17Case{Kind: "purity", Op: opName, Map: json.RawMessage(jsonOf(untype(m))), Pol: rt.OrderPolicy}
 	}
 	seqShaped := strings.HasPrefix(opName, "MapSeq")
 	rt.Unfreeze()
@@ -144,9 +144,11 @@ func c17Purity(c *Ctx, m map[string]interface{}, opName string) {
 			a, b := map[uintptr]bool{}, map[uintptr]bool{}
 			rt.Containers(m, a)
 			rt.Containers(map[string]interface{}(cp), b)
+			byteBackings(m, a)
+			byteBackings(map[string]interface{}(cp), b)
 			for p := range a {
 				if b[p] {
-					c.Violate(opName, "copy-shares-structure", "purity", cas, nil, fmt.Sprintf("receiver %s: the copy shares a map or list with the original", before))
+					c.Violate(opName, "copy-shares-structure", "purity", cas, nil, fmt.Sprintf("receiver %s: the copy shares a map, list or byte slice with the original", before))
 					return
 				}
 			}
@@ -384,7 +386,7 @@ func c17Init() {
 func c17Run(c *Ctx) {
 	mustBeDefault(c)
 	c17Init()
-	c.S.Rule = "layer 1+2 (purity, E-input): every read-only operation (41: all ValuesFor*/PathsFor*/Leaf*/Exists/Elements/Attributes/Root queries, all XML/JSON/gob encoders and Writer forms, Copy, StringIndent, NewMap, AnyXml, MapSeq encoders) x every Map template with <= N nodes over keys {r,k,-x,#text} plus MapSeqs decoded from XML documents and wide receivers (lists of 31, 32, 33, 64, 65 members with spare capacity, the key present deeper as well), with the whole receiver frozen: no monitored store into any container reachable from it, canonical dump unchanged, the package-level variables written are logged (reported as a counter; a synchronised cache is not a violation by itself); ascending and descending map order. layer 3 (interleavings, E-choice): a cooperative scheduler runs 2 threads (thorough: also 3) with 1-2 operations each from a menu of 18 (decode XML with cast, from plain readers incl. the raw form, decode sequence-XML, decode JSON and from a reader, Xml, XmlIndent, Json, Copy, ValuesForPath with wildcard, ValuesForKey, PathsForKey, LeafNodes, Gob round trip, MapSeq.Xml on shared read-only Maps, private round trip); scheduling points at every function entry, loop back-edge, map-iteration step and package-variable access of the instrumented mxj; ALL schedules with <= P preemptions; oracle per schedule: every thread's result equals its sequential result, the shared Maps are unchanged (dump + store monitor). layer 4 (supplementary): the same bodies free-running on the uninstrumented build under the Go race detector - first from a cold start (the first calls of the process run concurrently), then in rounds that also run 18 operations whose argument texts (tags, keys, paths, sub-key specs, key pairs) are new to the process, one text shared by all 8 goroutines and one private to each. non-trivial = schedules with at least one preemption."
+	c.S.Rule = "layer 1+2 (purity, E-input): every read-only operation (41: all ValuesFor*/PathsFor*/Leaf*/Exists/Elements/Attributes/Root queries, all XML/JSON/gob encoders and Writer forms, Copy, StringIndent, NewMap, AnyXml, MapSeq encoders) x every Map template with <= N nodes over keys {r,k,-x,#text} plus MapSeqs decoded from XML documents Maps holding []byte values, and wide receivers (lists of 31, 32, 33, 64, 65 members with spare capacity, the key present deeper as well), with the whole receiver frozen: no monitored store into any container reachable from it, canonical dump unchanged, the package-level variables written are logged (reported as a counter; a synchronised cache is not a violation by itself); ascending and descending map order. layer 3 (interleavings, E-choice): a cooperative scheduler runs 2 threads (thorough: also 3) with 1-2 operations each from a menu of 18 (decode XML with cast, from plain readers incl. the raw form, decode sequence-XML, decode JSON and from a reader, Xml, XmlIndent, Json, Copy, ValuesForPath with wildcard, ValuesForKey, PathsForKey, LeafNodes, Gob round trip, MapSeq.Xml on shared read-only Maps, private round trip); scheduling points at every function entry, loop back-edge, map-iteration step and package-variable access of the instrumented mxj; ALL schedules with <= P preemptions; oracle per schedule: every thread's result equals its sequential result, the shared Maps are unchanged (dump + store monitor). layer 4 (supplementary): the same bodies free-running on the uninstrumented build under the Go race detector - first from a cold start (the first calls of the process run concurrently), then in rounds that also run 18 operations whose argument texts (tags, keys, paths, sub-key specs, key pairs) are new to the process, one text shared by all 8 goroutines and one private to each. non-trivial = schedules with at least one preemption."
 	c.S.Assumptions = []string{"sequentially consistent interleavings at hooked points; conflicts through unhooked writes inside the standard library are left to the race-detector pass", "package options are not changed concurrently (as the property states)"}
 	// ---- layers 1 and 2
 	n := 5
@@ -410,6 +412,23 @@ func c17Run(c *Ctx) {
 			rt.OrderPolicy = rt.PolicySorted
 		}
 	})
+	// Maps holding []byte values (documented as supported by the encoders): flat and below a root key
+	for _, mk := range []func() map[string]interface{}{
+		func() map[string]interface{} { return map[string]interface{}{"a": []byte("hello"), "k": "s", "r": 1.5} },
+		func() map[string]interface{} { return map[string]interface{}{"a": []byte("hello"), "k": []byte("<&>")} },
+		func() map[string]interface{} {
+			return map[string]interface{}{"r": map[string]interface{}{"-x": []byte("v"), "#text": []byte("t"), "k": []interface{}{[]byte("p"), "q"}}}
+		},
+	} {
+		for _, op := range ops {
+			if strings.HasPrefix(op.name, "MapSeq") || !c.Mine() {
+				continue
+			}
+			c.S.States++
+			c.S.Evaluations++
+			c17Purity(c, mk(), op.name)
+		}
+	}
 	// wide receivers: lists around the internal initial result capacity (32) and its doubling, with the key
 	// present deeper as well; built with spare capacity like decoder-built lists
 	for _, width := range []int{31, 32, 33, 64, 65} {
